@@ -778,7 +778,7 @@ def run(chk, replay=None):
                        "(thorough: all 2^32 for int/unsigned on the implementation against snprintf), boundary values (2^k, 10^k +-2, type limits, doubles at "
                        "decimal and %g switch boundaries), insertion sequences filling the buffer to capacity-50..+50 and to avail = kMaxNumericSize-6..+6, "
                        "Logger lines over levels x errno x func x paths with 0..n slashes x tids x seconds x zones, all 8 macros x 6 configured levels, "
-                       "formatSI/IEC on every rung bound +-3 and dense random n, true time/tid samples incl. a forked child; non-trivial = an item was left "
+                       "formatSI/IEC on every rung bound +-3, double-spacing neighbours, F-9's range, decimal ties +-2 and dense random n, true time/tid samples incl. a forked child; non-trivial = an item was left "
                        "out, the buffer got within 64 bytes of full, a maximal-width number, a double, an errno line, a long line, a rejected value, or a "
                        "sweep/gate/true-metadata/unit op; distinct by (generator, events, first 12 op kinds, last observer line)")
     chk.cov["traces_validated_against_impl"] = len(cases) - len(corr_bad)
@@ -794,9 +794,15 @@ def run(chk, replay=None):
                 "translator lib/gen_consts.py + lib/gen_C17.py (clang 14 JSON AST): constants, digit tables, LogLevelName, fit tests, level gates, formatSI/IEC ladders",
                 "glibc snprintf/strerror_r/gmtime, Python's %d/%X/%.12g formatting and time.gmtime in the oracle",
                 "formatSI/formatIEC: width and accuracy are proved for ALL n about the model's exact arithmetic (C17_Model.rne: a rational rounded to nearest, "
-                "ties to even; to_double, div_double, fixed_scaled built on it); that this arithmetic IS the hardware's binary64 conversion/division and glibc's "
-                "correctly rounded %.<p>f is not proved (no Flocq link): it is tied by the correspondence run (every rung bound +-3, the neighbours at the "
-                "spacing of doubles, F-9's range, decimal ties +-2, dense random n against the real functions)")
+                "ties to even; to_double, div_double, fixed_scaled built on it). C17_binary64_semantics proves that to_double and div_double are Flocq's binary64 "
+                "rounding (round radix2 (FLT_exp (-1074) 53) ZnearestE) of the integer / of the exact real quotient; that the CPU and the compiler implement "
+                "IEEE-754 binary64 for static_cast<double>(int64_t) and operator/ (x86-64 SSE2, round-to-nearest mode, no -ffast-math), and that glibc's %.<p>f "
+                "prints the exact binary value correctly rounded to nearest even (fixed_scaled), are assumptions tested by the correspondence run (every rung "
+                "bound +-3, the neighbours at the spacing of doubles, F-9's range, decimal ties +-2, dense random n against the real functions)",
+                "axioms of Coq's real numbers, used ONLY by C17_binary64_semantics (via Flocq 4 and Coq.Reals; every other theorem of C17 is closed under the "
+                "global context): ClassicalDedekindReals.sig_not_dec, ClassicalDedekindReals.sig_forall_dec, "
+                "FunctionalExtensionality.functional_extensionality_dep, Classical_Prop.classic",
+                "Flocq (installed under user-contrib/Flocq): Core.Generic_fmt.round, FLT_exp, ZnearestE as the definition of binary64 round-to-nearest-even")
 
     for c, f in known:
         chk.known(f.key, "key=%s %s" % (f.key, f.msg))
@@ -865,6 +871,7 @@ def run(chk, replay=None):
         "snprintf(\"%.12g\") yields at most 24 characters (Section hypothesis of C17_in_bounds / C17_line_shape; DESIGN 3.4)",
         "the broken-down time handed to the line model is TimeZone::toUtcTime/toLocalTime of the second (C20); the harness uses glibc gmtime as its stand-in",
         "that time stamp and thread id are the true ones is established by the harness only (call-window inequalities, gettid of the emitting thread, forked child)",
-        "formatSI/formatIEC: C17_si_width / C17_iec_width / C17_units_accurate hold for every 0 <= n < 2^63 of the model, whose round-to-nearest-even arithmetic "
-        "is assumed to be binary64's and glibc's (tested by the correspondence run, not proved)",
+        "formatSI/formatIEC: C17_si_width / C17_iec_width / C17_units_accurate hold for every 0 <= n < 2^63 of the model; its conversion and quotient are proved "
+        "to be IEEE-754 binary64 round-to-nearest-even (C17_binary64_semantics, Flocq); that the hardware/compiler compute exactly that and that glibc's %.<p>f is "
+        "correctly rounded is assumed (tested by the correspondence run, not proved)",
         "the model is tied to the code by regenerated tables/guards and differential execution (testing), not by a verified C++ semantics"])
